@@ -84,7 +84,14 @@ class C18(Prop):
             lines.append("%s %s %s" % ("wcs" if i % 3 != 0 else "wcsx", random_script(rng), ",".join(ops) if ops else "-"))
         yield "grammar-scripted", lines
         from .c06 import literal_ops
-        yield "literal-formatted-writes", ["wcs %s %s" % (random_script(rng) if i % 3 == 0 else "-", literal_ops(rng)) for i in range(n // 3)]
+        lo = []
+        for i in range(n // 3):
+            ops = literal_ops(rng)
+            data = b"".join(bytes.fromhex(o[2:]) for o in ops.split(",") if len(o) > 2 and o[2:] != "-")
+            # concatenated literals may leave the SGR grammar (e.g. "ESC[38;2;1;" + "31mred"): the spec-level
+            # oracle applies only when they do not (kind wcs); otherwise implementation = model only (wcsx)
+            lo.append("%s %s %s" % ("wcs" if sgrgen.simple_sgr_only(data) else "wcsx", random_script(rng) if i % 3 == 0 else "-", ops))
+        yield "literal-formatted-writes", lo
         # single calls far above any internal buffer or console limit (a `write` must consume all it reports)
         lines = []
         sizes = [40000, 70000, (1 << 20) + 4097] + ([(1 << 22) + 17] if tier == "thorough" else [])
